@@ -17,9 +17,9 @@ RULE = ('case = prefix of a random history of {new Variable (shape, symmetric?, 
         'clear_variable_indices}; observed: ids, generation, name of every Variable created so far and the three global '
         'counters; non-trivial = history containing a symmetric Variable or a clear; distinct by history hash.  Second '
         'stream: pickle round trips and builder-name checks (oracle).')
-TRUSTED = ['correspondence harness harness/props/c20.py', 'ORACLE: Python pickle memoisation and CPython object identity '
+TRUSTED = ['correspondence harness harness/props/c20.py', 'translator harness/translator/alloc_tr.py (Gen/GenAlloc.v; arrays per Model/AllocIdioms.v; what a cell of the Variable contains is outside the allocation state)', 'ORACLE: Python pickle memoisation and CPython object identity '
            '(names that embed str(obj) of live objects are distinct because the objects are distinct)']
-ASSUMPTIONS = ['Model/Alloc.v is hand written; tied by correspondence only',
+ASSUMPTIONS = ['Model/Alloc.v is hand written; tied by correspondence and, since the sixth session, by the translator: Variable.__new__, the two populate methods, ScalarVariable.__init__ and clear_variable_indices are regenerated (Gen/GenAlloc.v) and proved equal to it on every input; pickling is tied by correspondence only',
                'user-supplied duplicate names are the caller\'s responsibility (API contract); builder-generated names are checked '
                'by the oracle stream on every run']
 HEADER = ('From Coq Require Import List Bool Arith ZArith.\n'
@@ -36,6 +36,13 @@ HEADER = ('From Coq Require Import List Bool Arith ZArith.\n'
 
 DUP_NAMES = []
 EPI_NAMES = set()      # names of the epigraph Variables of all atoms created in this process (class counters: unique over the session)
+
+
+GEN_HEADER = (HEADER.replace('Model.Alloc Base.Corr.', 'Model.Alloc Model.AllocIdioms Gen.GenAlloc Proofs.GenAllocSpec Base.Corr.') +
+              '\nDefinition gen_model (ops : list (option (list nat * bool * option nat))) :=\n'
+              "  let '(g, vs) := gen_run (map mk_op ops) in\n"
+              '  ((counter g, generation g, unnamed g), map (fun v => (name_code (v_name v), v_shape v, v_gen v, v_ids v)) vs).')
+USES_TRANSLATOR = True
 
 
 def reset_globals():
@@ -431,6 +438,15 @@ def run(ctx):
             model_out = vlib.coq_show(HEADER, 'model %s' % cases[idx][1])
             ctx.problem('correspondence', 'suite alloc: model and implementation disagree after history %s; impl=%s model=%s'
                         % (cases[idx][1][:800], cases[idx][2][:800], model_out[:800]), inputs={'history': cases[idx][1]}, failing_input_found=False)
+    # the same histories through the allocation code GENERATED from base.py / __init__.py (Gen/GenAlloc.v)
+    mism, err = vlib.run_suite_in_coq(ctx.pid, 'alloc_generated', GEN_HEADER, 'gen_model', 'out_eqb', T_in, T_out, [(c[1], c[2]) for c in cases], shard=150)
+    ctx.suites['alloc_generated'] = {'cases': len(cases), 'mismatches': None if mism is None else len(mism)}
+    if err:
+        ctx.problem('correspondence', 'suite alloc_generated: ' + err)
+    else:
+        for idx in mism[:2]:
+            ctx.problem('correspondence', 'suite alloc_generated: the allocation code generated from base.py and the implementation disagree after history %s; impl=%s'
+                        % (cases[idx][1][:800], cases[idx][2][:800]), inputs={'history': cases[idx][1]}, failing_input_found=False)
     for name, f in (('pickle_roundtrips', oracle_pickle), ('builder_names', oracle_builder_names)):
         why = f(ctx.rng)
         ctx.suites[name] = {'cases': 1, 'failure': why}
